@@ -46,8 +46,48 @@ def extra(chk):
                     "such a wait does); %d timeouts observed" % (rep["evaluations"], n_to))
 
 
+def extra_sync(chk):
+    """The blocking API (LdapConn / EntryStream) runs the same operations on a runtime of its own: a timed operation there must
+    end like its asynchronous twin - with the response or the timeout error, not with a panic. The scripts are C14's (TLC:
+    MCSync); here only what happens in steps that carry a timeout is judged."""
+    import os
+    import common as C
+    out = os.path.join(chk.dir, "mcsync.out")
+    res = C.tlc("MCSync", "MCSync_quick.cfg", out, workers=4, timeout=300, heap="3g")
+    chk.model("MCSync/MCSync_quick.cfg", res)
+    tr = os.path.join(chk.dir, "sync.ndjson")
+    rp = os.path.join(chk.dir, "sync-replay.json")
+    C.harness("sync-run", ["replay", out, tr, rp], timeout=900)
+    for x in (out, tr):
+        if os.path.exists(x):
+            os.remove(x)
+    rep = C.load(rp)
+    kept = {}
+    for m in rep.get("mismatches", []):
+        kept.setdefault(m["key"], []).append(m["case"])
+    mine = {k: n for k, n in rep.get("mismatch_by_key", {}).items() if k.endswith(":under-timeout") or ":timeout" in k}
+    for k, n in mine.items():
+        chk.problem("sync:" + k, dict(count=n, cases=kept.get(k, [])[:3]), "S->I: MCSync scripts through LdapConn vs Ldap, steps with a timeout")
+    rest = {k: n for k, n in rep.get("mismatch_by_key", {}).items() if k not in mine}
+    if rest:
+        chk.notes.append("blocking API: differences owned by C14 (not this property): %s" % ", ".join("%s x%d" % kv for kv in sorted(rest.items())))
+    cnt = rep.get("counters", {})
+    chk.evaluations += rep["evaluations"]
+    chk.extra["blocking_api_timeouts"] = dict(scripts=rep["evaluations"], timeout_outcomes=cnt.get("outcome:timeout", 0),
+                                              stream_timeouts=cnt.get("stream-outcome:timeout", 0))
+    if cnt.get("outcome:timeout", 0) == 0 or cnt.get("mod:with_timeout", 0) == 0:
+        chk.tool_error("vacuity: no timed step in the blocking-API scripts")
+    chk.rule.append("blocking API: every MCSync script run through Ldap and through LdapConn; in steps that carry a timeout a panic of "
+                    "one lane or a different timeout outcome is C12's (%d timeout outcomes)" % cnt.get("outcome:timeout", 0))
+
+
+def extra_all(chk):
+    extra(chk)
+    extra_sync(chk)
+
+
 def run(tier):
-    return L.run_lane("C12", tier, MC[tier], PROFILES[tier], RULE, scripts=SCRIPTS[tier], selftests=[("timeout-one-tick-longer", L.corrupt_time, "time")], extra=extra)
+    return L.run_lane("C12", tier, MC[tier], PROFILES[tier], RULE, scripts=SCRIPTS[tier], selftests=[("timeout-one-tick-longer", L.corrupt_time, "time")], extra=extra_all)
 
 
 def replay(path):
